@@ -1,1 +1,874 @@
+(* Invariant of Pool.run's bookkeeping (model Pool/Model.v) and its preservation
+   by every primitive, environment step and poll. *)
 From PW Require Import Pool.Model.
+From Coq Require Import Permutation ZifyBool ZifyNat.
+Open Scope Z_scope.
+
+(* ---------- sums over workers 0..k-1 ---------- *)
+Fixpoint sumf (g : nat -> nat) (k : nat) : nat :=
+  match k with O => O | S k' => (sumf g k' + g k')%nat end.
+
+Lemma sumf_ext g h k : (forall i, (i < k)%nat -> g i = h i) -> sumf g k = sumf h k.
+Proof.
+  induction k as [|k IH]; intros H; simpl; [reflexivity|].
+  rewrite IH by (intros; apply H; lia). rewrite H by lia. reflexivity.
+Qed.
+
+Lemma sumf_upd g h k i :
+  (i < k)%nat -> (forall j, j <> i -> h j = g j) -> (sumf h k + g i = sumf g k + h i)%nat.
+Proof.
+  induction k as [|k IH]; intros Hi H; [lia|]. simpl.
+  destruct (Nat.eq_dec i k) as [->|Hne].
+  - rewrite (sumf_ext h g k) by (intros; apply H; lia). lia.
+  - rewrite (H k) by lia. assert (i < k)%nat by lia. specialize (IH H0 H). lia.
+Qed.
+
+Lemma sumf_zero g k : (forall i, (i < k)%nat -> g i = O) -> sumf g k = O.
+Proof. induction k as [|k IH]; intros H; simpl; [reflexivity|]. rewrite IH, H by (intros; auto; lia). reflexivity. Qed.
+
+Lemma sumf_zero_inv g k : sumf g k = O -> forall i, (i < k)%nat -> g i = O.
+Proof.
+  induction k as [|k IH]; intros H i Hi; [lia|]. simpl in H.
+  destruct (Nat.eq_dec i k) as [->|]; [lia|]. apply IH; lia.
+Qed.
+
+Notation cnt := (count_occ Z.eq_dec).
+
+(* ---------- per-worker invariant ---------- *)
+Definition qinputs (l : list msg) : list inp :=
+  flat_map (fun m => match m with MRes x _ => [x] | MEnd => [] end) l.
+
+Definition is_res (m : msg) : Prop := match m with MRes _ _ => True | MEnd => False end.
+
+Definition qok (c : cfg) (l : list msg) : Prop :=
+  Forall (fun m => match m with MRes x r => r = f c x | MEnd => True end) l.
+
+(* after an end marker nothing else has been written *)
+Fixpoint wf_q (l : list msg) : Prop :=
+  match l with
+  | [] => True
+  | MRes _ _ :: r => wf_q r
+  | MEnd :: r => r = []
+  end.
+
+Record WInv (c : cfg) (v : W) : Prop := {
+  wi_closed : closed v = true ->
+              ppw v = [] /\ qinputs (q v) = [] /\ (alive v = false \/ ended v = true \/ inbox v = []);
+  wi_open : closed v = false -> ppw v = qinputs (q v) ++ failed v ++ inbox v;
+  wi_qok : qok c (q v);
+  wi_wf : wf_q (q v);
+  wi_noend : ended v = false -> Forall is_res (q v) /\ failed v = [];
+  wi_end : In MEnd (q v) -> ended v = true;
+  wi_qpres : qpres v = false -> q v = [] /\ alive v = false
+}.
+
+Lemma qinputs_app a b : qinputs (a ++ b) = qinputs a ++ qinputs b.
+Proof. unfold qinputs. apply flat_map_app. Qed.
+
+Lemma wf_q_app_res l x r : Forall is_res l -> wf_q (l ++ [MRes x r]).
+Proof. induction 1 as [|m l Hm Hl IH]; simpl; [exact I|]. destruct m; [exact IH|elim Hm]. Qed.
+
+Lemma wf_q_app_end l : Forall is_res l -> wf_q (l ++ [MEnd]).
+Proof. induction 1 as [|m l Hm Hl IH]; simpl; [reflexivity|]. destruct m; [exact IH|elim Hm]. Qed.
+
+Lemma wf_q_tail m l : wf_q (m :: l) -> wf_q l.
+Proof. destruct m; simpl; [auto|]. intros ->. exact I. Qed.
+
+Lemma wf_q_after_end l : wf_q (MEnd :: l) -> l = [].
+Proof. simpl. auto. Qed.
+
+(* ---------- global invariant; [h] = inputs currently "in hand" inside try_enqueue ---------- *)
+Definition plen (s : St) (i : nat) : nat := length (ppw (w s i)).
+Definition pcnt (x : Z) (s : St) (i : nat) : nat := cnt (ppw (w s i)) x.
+
+Record Inv (c : cfg) (inputs : list inp) (h : list inp) (s : St) : Prop := {
+  inv_w : forall i, WInv c (w s i);
+  inv_pending : pending s = Z.of_nat (sumf (plen s) (n c));
+  inv_cons : forall x,
+      (cnt (consumed s) x =
+       cnt (ret_in s) x + sumf (pcnt x s) (n c) + cnt (retries s) x + cnt (lost s) x + cnt h x)%nat;
+  inv_ret : return_results c = true -> ret s = map (f c) (ret_in s);
+  inv_ret_off : return_results c = false -> ret s = [];
+  inv_src : consumed s ++ src s = inputs;
+  inv_lost : retry c = true -> lost s = [];
+  inv_dep : depleted s = true -> src s = []
+}.
+
+Lemma upd_same g i v : upd g i v i = v.
+Proof. unfold upd. now rewrite Nat.eqb_refl. Qed.
+
+Lemma upd_other g i v j : j <> i -> upd g i v j = g j.
+Proof. unfold upd. intros H. destruct (Nat.eqb_spec j i); [contradiction|reflexivity]. Qed.
+
+Ltac upd_simpl :=
+  repeat first [ rewrite upd_same | rewrite upd_other by (auto; lia) ].
+
+(* Updating worker i (i < n) : how the two sums move. *)
+Lemma plen_upd (s s' : St) c i :
+  (i < n c)%nat -> (forall j, j <> i -> w s' j = w s j) ->
+  (sumf (plen s') (n c) + plen s i = sumf (plen s) (n c) + plen s' i)%nat.
+Proof.
+  intros Hi H. apply sumf_upd; [exact Hi|]. intros j Hj. unfold plen. now rewrite H.
+Qed.
+
+Lemma pcnt_upd x (s s' : St) c i :
+  (i < n c)%nat -> (forall j, j <> i -> w s' j = w s j) ->
+  (sumf (pcnt x s') (n c) + pcnt x s i = sumf (pcnt x s) (n c) + pcnt x s' i)%nat.
+Proof.
+  intros Hi H. apply sumf_upd; [exact Hi|]. intros j Hj. unfold pcnt. now rewrite H.
+Qed.
+
+Lemma sums_same (s s' : St) c x :
+  (forall j, ppw (w s' j) = ppw (w s j)) ->
+  sumf (plen s') (n c) = sumf (plen s) (n c) /\ sumf (pcnt x s') (n c) = sumf (pcnt x s) (n c).
+Proof.
+  intros H. split; apply sumf_ext; intros; unfold plen, pcnt; now rewrite H.
+Qed.
+
+Lemma cnt_app (l1 l2 : list Z) x : cnt (l1 ++ l2) x = (cnt l1 x + cnt l2 x)%nat.
+Proof. apply count_occ_app. Qed.
+
+(* ---------- next_inputs ---------- *)
+Lemma next_inputs_none c inputs h s s1 :
+  Inv c inputs h s -> next_inputs s = (None, s1) -> Inv c inputs h s1.
+Proof.
+  intros I. unfold next_inputs.
+  destruct (retries s) as [|x r] eqn:Er; [|discriminate].
+  destruct (depleted s) eqn:Ed.
+  - intros E; inversion E; subst. exact I.
+  - destruct (src s) as [|x r] eqn:Es; [|discriminate].
+    intros E; inversion E; subst. destruct I.
+    constructor; cbn [w src depleted pending retries ret nenq ret_in consumed lost].
+    + exact inv_w0.
+    + exact inv_pending0.
+    + intros z. specialize (inv_cons0 z). rewrite Er in inv_cons0. exact inv_cons0.
+    + exact inv_ret0.
+    + exact inv_ret_off0.
+    + rewrite Es in inv_src0. exact inv_src0.
+    + exact inv_lost0.
+    + reflexivity.
+Qed.
+
+Lemma next_inputs_some c inputs h s s1 x fr :
+  Inv c inputs h s -> next_inputs s = (Some (x, fr), s1) ->
+  Inv c inputs (x :: h) s1 /\ w s1 = w s.
+Proof.
+  intros I. unfold next_inputs.
+  destruct (retries s) as [|y r] eqn:Er.
+  - destruct (depleted s) eqn:Ed; [discriminate|].
+    destruct (src s) as [|y r] eqn:Es; [discriminate|].
+    intros E; inversion E; subst. split; [|reflexivity]. destruct I.
+    constructor; cbn [w src depleted pending retries ret nenq ret_in consumed lost].
+    + exact inv_w0.
+    + exact inv_pending0.
+    + intros z. rewrite cnt_app. specialize (inv_cons0 z). rewrite Er in *.
+      change (sumf (pcnt z _) (n c)) with (sumf (pcnt z s) (n c)).
+      simpl in *. destruct (Z.eq_dec x z); lia.
+    + exact inv_ret0.
+    + exact inv_ret_off0.
+    + rewrite <- inv_src0, Es, <- app_assoc. reflexivity.
+    + exact inv_lost0.
+    + congruence.
+  - intros E; inversion E; subst. split; [|reflexivity]. destruct I.
+    constructor; cbn [w src depleted pending retries ret nenq ret_in consumed lost]; auto.
+    intros z. specialize (inv_cons0 z). rewrite Er in inv_cons0.
+    change (sumf (pcnt z _) (n c)) with (sumf (pcnt z s) (n c)).
+    simpl in *. destruct (Z.eq_dec x z); lia.
+Qed.
+
+(* ---------- handle_unused ---------- *)
+Lemma handle_unused_inv c inputs h s x fr :
+  Inv c inputs (x :: h) s -> Inv c inputs h (handle_unused c s x fr).
+Proof.
+  intros I. unfold handle_unused. destruct I.
+  destruct (retry c) eqn:Er.
+  - constructor; cbn [w src depleted pending retries ret nenq ret_in consumed lost]; auto.
+    intros z. specialize (inv_cons0 z).
+    change (sumf (pcnt z _) (n c)) with (sumf (pcnt z s) (n c)).
+    destruct fr; simpl in *; rewrite ?cnt_app; simpl; destruct (Z.eq_dec x z); lia.
+  - constructor; cbn [w src depleted pending retries ret nenq ret_in consumed lost]; auto; [|congruence].
+    intros z. specialize (inv_cons0 z). rewrite cnt_app.
+    change (sumf (pcnt z _) (n c)) with (sumf (pcnt z s) (n c)).
+    simpl in *. destruct (Z.eq_dec x z); lia.
+Qed.
+
+Lemma handle_unused_w c s x fr : w (handle_unused c s x fr) = w s.
+Proof. unfold handle_unused. destruct (retry c); reflexivity. Qed.
+
+(* ---------- bump ---------- *)
+Lemma bump_inv c inputs h s : Inv c inputs h s -> Inv c inputs h (bump s).
+Proof. intros []. constructor; cbn [bump w src depleted pending retries ret nenq ret_in consumed lost]; auto. Qed.
+
+(* ---------- handle_enqueue ---------- *)
+Lemma handle_enqueue_inv c inputs h s i x :
+  (i < n c)%nat -> closed (w s i) = false ->
+  Inv c inputs (x :: h) s -> Inv c inputs h (handle_enqueue s i x).
+Proof.
+  intros Hi Hc I. destruct I.
+  set (s' := handle_enqueue s i x).
+  assert (Ho : forall j, j <> i -> w s' j = w s j) by (intros; unfold s', handle_enqueue; simpl; now upd_simpl).
+  assert (Hp : ppw (w s' i) = ppw (w s i) ++ [x]) by (unfold s', handle_enqueue; simpl; now upd_simpl).
+  constructor; auto.
+  - intros j. destruct (Nat.eq_dec j i) as [->|Hne]; [|rewrite Ho by auto; apply inv_w0].
+    destruct (inv_w0 i). unfold s', handle_enqueue. simpl. upd_simpl.
+    constructor; simpl; auto; try congruence.
+    intros _. rewrite wi_open0 by exact Hc. now rewrite <- !app_assoc.
+  - pose proof (plen_upd s s' c i Hi Ho) as P. unfold plen in P at 2 4. rewrite Hp, app_length in P.
+    unfold s' at 1. unfold handle_enqueue at 1. simpl pending. rewrite inv_pending0.
+    fold s'. simpl in P. lia.
+  - intros z. pose proof (pcnt_upd z s s' c i Hi Ho) as P. unfold pcnt in P at 2 4.
+    rewrite Hp, cnt_app in P. specialize (inv_cons0 z). simpl in *.
+    destruct (Z.eq_dec x z); lia.
+Qed.
+
+(* ---------- set_q: dropping the head of worker i's queue ---------- *)
+Lemma set_q_w_other s i q' j : j <> i -> w (set_q s i q') j = w s j.
+Proof. intros. unfold set_q, setw. simpl. now upd_simpl. Qed.
+
+Lemma set_q_w_same s i q' :
+  w (set_q s i q') i =
+  mkW (ppw (w s i)) (closed (w s i)) (qpres (w s i)) (inbox (w s i)) q' (alive (w s i)) (ended (w s i)) (failed (w s i)).
+Proof. unfold set_q, setw. simpl. now upd_simpl. Qed.
+
+(* a result read from an open worker's queue answers the head of its pending list *)
+Lemma take_result_inv c inputs h s i x r q' :
+  (i < n c)%nat -> Inv c inputs h s -> q (w s i) = MRes x r :: q' -> closed (w s i) = false ->
+  exists s', take_result c (set_q s i q') i r = Some s' /\ Inv c inputs h s'
+             /\ (forall j, j <> i -> w s' j = w s j)
+             /\ closed (w s' i) = false /\ q (w s' i) = q' /\ alive (w s' i) = alive (w s i)
+             /\ ended (w s' i) = ended (w s i) /\ qpres (w s' i) = qpres (w s i)
+             /\ retries s' = retries s /\ depleted s' = depleted s /\ src s' = src s
+             /\ consumed s' = consumed s.
+Proof.
+  intros Hi I Hq Hc. destruct I. destruct (inv_w0 i) as [Wc Wo Wk Ww Wn We].
+  specialize (Wo Hc). rewrite Hq in Wo. simpl in Wo.
+  unfold take_result. rewrite set_q_w_same. simpl ppw. rewrite Wo.
+  eexists. split; [reflexivity|].
+  match goal with |- Inv _ _ _ ?S /\ _ => set (s' := S) end.
+  assert (Ho : forall j, j <> i -> w s' j = w s j).
+  { intros j Hj. unfold s'. cbn [w]. rewrite upd_other by auto. now apply set_q_w_other. }
+  assert (Hp : ppw (w s' i) = qinputs q' ++ failed (w s i) ++ inbox (w s i)) by (unfold s'; simpl; now upd_simpl).
+  rewrite Hq in Wk. inversion Wk as [|? ? Hr Wk']; subst.
+  split; [|unfold s'; simpl; upd_simpl; simpl; repeat split; auto].
+  constructor; auto.
+  - intros j. destruct (Nat.eq_dec j i) as [->|Hne]; [|rewrite Ho by auto; apply inv_w0].
+    unfold s'. simpl. upd_simpl.
+    constructor; simpl; auto; try congruence.
+    + rewrite Hq in Ww. eapply wf_q_tail; eauto.
+    + intros He. destruct (Wn He) as [Wa Wb]. rewrite Hq in Wa. inversion Wa; auto.
+    + intros Hin. apply We. rewrite Hq. now right.
+    + intros Hqp. destruct (wi_qpres _ _ (inv_w0 i) Hqp) as [Hq0 _]. congruence.
+  - pose proof (plen_upd s s' c i Hi Ho) as P. unfold plen in P at 2 4. rewrite Hp, Wo in P. simpl in P.
+    unfold s' at 1. simpl pending. rewrite inv_pending0. fold s'. lia.
+  - intros z. pose proof (pcnt_upd z s s' c i Hi Ho) as P. unfold pcnt in P at 2 4.
+    rewrite Hp, Wo in P. specialize (inv_cons0 z).
+    unfold s' at 1 3 4 5. simpl. rewrite cnt_app. simpl in *. fold s'.
+    destruct (Z.eq_dec x z); lia.
+  - intros Hr. unfold s'. simpl. rewrite Hr. rewrite map_app, <- inv_ret0 by exact Hr. reflexivity.
+  - intros Hr. unfold s'. simpl. rewrite Hr. auto.
+Qed.
+
+(* ---------- dropping an end marker from the head of a queue ---------- *)
+Lemma drop_end_inv c inputs h s i q' :
+  Inv c inputs h s -> q (w s i) = MEnd :: q' ->
+  Inv c inputs h (set_q s i q') /\ q' = [].
+Proof.
+  intros I Hq. destruct I. pose proof (inv_w0 i) as Wi. destruct Wi as [Wc Wo Wk Ww Wn We Wp].
+  assert (q' = []) as -> by (rewrite Hq in Ww; exact Ww).
+  split; [|reflexivity].
+  assert (Hs : forall j, ppw (w (set_q s i []) j) = ppw (w s j)).
+  { intros j. destruct (Nat.eq_dec j i) as [->|Hne]; [now rewrite set_q_w_same|now rewrite set_q_w_other]. }
+  constructor; auto.
+  - intros j. destruct (Nat.eq_dec j i) as [->|Hne]; [|rewrite set_q_w_other by auto; apply inv_w0].
+    rewrite set_q_w_same. constructor; cbn [ppw closed qpres inbox q alive ended failed].
+    + intros Hc. destruct (Wc Hc) as [A [B C]]. auto.
+    + intros Hc. rewrite (Wo Hc), Hq. reflexivity.
+    + constructor.
+    + exact I.
+    + intros He. destruct (Wn He) as [A B]. rewrite Hq in A. inversion A as [|? ? Hm]. elim Hm.
+    + intros [].
+    + intros Hqp. destruct (Wp Hqp) as [A B]. congruence.
+  - change (pending (set_q s i [])) with (pending s).
+    rewrite inv_pending0. f_equal. apply sumf_ext. intros. unfold plen. now rewrite Hs.
+  - intros z. change (consumed (set_q s i [])) with (consumed s).
+    change (ret_in (set_q s i [])) with (ret_in s). change (retries (set_q s i [])) with (retries s).
+    change (lost (set_q s i [])) with (lost s).
+    rewrite (inv_cons0 z).
+    assert (sumf (pcnt z (set_q s i [])) (n c) = sumf (pcnt z s) (n c)) as ->; [|reflexivity].
+    apply sumf_ext. intros. unfold pcnt. now rewrite Hs.
+Qed.
+
+(* what drain/bury/te/hd_ never touch *)
+Definition same_static (s s' : St) : Prop :=
+  depleted s' = depleted s /\ src s' = src s /\ consumed s' = consumed s.
+
+(* ---------- drain ---------- *)
+Lemma drain_inv c inputs h k : forall s i,
+  (i < n c)%nat -> Inv c inputs h s -> closed (w s i) = false ->
+  (length (q (w s i)) < k)%nat ->
+  let s' := drain c k s i in
+  Inv c inputs h s' /\ (forall j, j <> i -> w s' j = w s j) /\ closed (w s' i) = false
+  /\ alive (w s' i) = alive (w s i) /\ ended (w s' i) = ended (w s i)
+  /\ qinputs (q (w s' i)) = [] /\ retries s' = retries s /\ same_static s s'.
+Proof.
+  induction k as [|k IH]; intros s i Hi I Hc Hk; [lia|].
+  cbn zeta. simpl drain.
+  pose proof (inv_w _ _ _ _ I i) as Wi.
+  assert (Hstop : forall (P : Prop), qinputs (q (w s i)) = [] -> P -> 
+          Inv c inputs h s /\ (forall j, j <> i -> w s j = w s j) /\ closed (w s i) = false
+          /\ alive (w s i) = alive (w s i) /\ ended (w s i) = ended (w s i)
+          /\ qinputs (q (w s i)) = [] /\ retries s = retries s /\ same_static s s).
+  { intros P HqP _.
+    refine (conj I (conj _ (conj Hc (conj eq_refl (conj eq_refl (conj HqP (conj eq_refl _))))))).
+    - auto.
+    - unfold same_static; auto. }
+  destruct (qpres (w s i)) eqn:Hqp; simpl negb; cbv iota.
+  2:{ apply (Hstop True); auto. destruct (wi_qpres _ _ Wi Hqp) as [-> _]. reflexivity. }
+  destruct (ppw (w s i)) as [|p0 pr] eqn:Hp.
+  { apply (Hstop True); auto. pose proof (wi_open _ _ Wi Hc) as Ho. rewrite Hp in Ho.
+    symmetry in Ho. apply app_eq_nil in Ho. tauto. }
+  destruct (q (w s i)) as [|m q'] eqn:Hq.
+  { rewrite Hq. apply (Hstop True); auto. }
+  clear Hstop.
+  destruct m as [x r|].
+  - destruct (take_result_inv c inputs h s i x r q' Hi I Hq Hc)
+      as [s1 [E [I1 [Ho [Hc1 [Hq1 [Ha1 [He1 [Hqp1 [Hr1 [Hd1 [Hs1 Hcs1]]]]]]]]]]]].
+    rewrite E.
+    assert (Hk1 : (length (q (w s1 i)) < k)%nat) by (rewrite Hq1; simpl in Hk; lia).
+    destruct (IH s1 i Hi I1 Hc1 Hk1) as [I2 [Ho2 [Hc2 [Ha2 [He2 [Hq2 [Hr2 [Hd2 [Hs2 Hcs2]]]]]]]]].
+    refine (conj I2 (conj _ (conj Hc2 (conj _ (conj _ (conj Hq2 (conj _ _))))))); try congruence.
+    + intros j Hj. rewrite Ho2, Ho by auto. reflexivity.
+    + unfold same_static. repeat split; congruence.
+  - destruct (drop_end_inv c inputs h s i q' I Hq) as [I1 ->].
+    refine (conj I1 (conj _ (conj _ (conj _ (conj _ (conj _ (conj eq_refl _))))))).
+    + intros j Hj. now apply set_q_w_other.
+    + now rewrite set_q_w_same.
+    + now rewrite set_q_w_same.
+    + now rewrite set_q_w_same.
+    + now rewrite set_q_w_same.
+    + unfold same_static. auto.
+Qed.
+
+(* ---------- bury ---------- *)
+Lemma bury_inv c inputs h s i :
+  (i < n c)%nat -> Inv c inputs h s -> closed (w s i) = false ->
+  qinputs (q (w s i)) = [] -> (alive (w s i) = false \/ ended (w s i) = true) ->
+  Inv c inputs h (bury c s i) /\ (forall j, j <> i -> w (bury c s i) j = w s j)
+  /\ closed (w (bury c s i) i) = true /\ same_static s (bury c s i).
+Proof.
+  intros Hi I Hc Hq Hd. destruct I. pose proof (inv_w0 i) as Wi. destruct Wi as [Wc Wo Wk Ww Wn We Wp].
+  set (s' := bury c s i).
+  assert (Ho : forall j, j <> i -> w s' j = w s j) by (intros; unfold s', bury; cbn [w]; now upd_simpl).
+  assert (Hp : ppw (w s' i) = []) by (unfold s', bury; cbn [w]; now upd_simpl).
+  split; [|repeat split; auto; unfold s', bury; cbn [w]; now upd_simpl].
+  constructor; auto.
+  - intros j. destruct (Nat.eq_dec j i) as [->|Hne]; [|rewrite Ho by auto; apply inv_w0].
+    unfold s', bury. cbn [w]. upd_simpl. constructor; simpl; auto; try congruence.
+    intros _. repeat split; auto. destruct Hd; auto.
+  - pose proof (plen_upd s s' c i Hi Ho) as P. unfold plen in P at 2 4. rewrite Hp in P. simpl in P.
+    unfold s' at 1. unfold bury at 1. cbn [pending]. rewrite inv_pending0. fold s'. lia.
+  - intros z. pose proof (pcnt_upd z s s' c i Hi Ho) as P. unfold pcnt in P at 2 4. rewrite Hp in P.
+    simpl in P. specialize (inv_cons0 z).
+    unfold s' at 1 2 4 5. unfold bury. cbn [consumed ret_in retries lost]. fold s'.
+    destruct (retry c); rewrite ?cnt_app; lia.
+  - intros Hr. unfold s', bury. cbn [lost]. rewrite Hr. auto.
+Qed.
+
+(* ---------- try_enqueue / handle_death ---------- *)
+Definition okR (c : cfg) (inputs h : list inp) (r : R) : Prop :=
+  match r with
+  | Go s' => Inv c inputs h s'
+  | Stop o => o = Livelock
+  end.
+
+Lemma choose_in c s cands : cands <> [] -> In (choose c s cands) cands.
+Proof.
+  intros Hne. unfold choose.
+  destruct (existsb (Nat.eqb (pick c (nenq s))) cands) eqn:E.
+  - apply existsb_exists in E. destruct E as [y [Hy E]]. apply Nat.eqb_eq in E. now subst.
+  - destruct cands; [congruence|now left].
+Qed.
+
+Lemma idle_list_spec c s j :
+  In j (idle_list c s) -> (j < n c)%nat /\ ppw (w s j) = [] /\ closed (w s j) = false.
+Proof.
+  unfold idle_list. rewrite filter_In, in_seq. intros [Hr Hf].
+  destruct (ppw (w s j)); [|discriminate]. destruct (closed (w s j)); [discriminate|]. repeat split; lia.
+Qed.
+
+Definition redispatch (c : cfg) (fuel' : nat) : nat -> St -> R :=
+  fix redispatch (k : nat) (s : St) : R :=
+    match k with
+    | O => Stop Livelock
+    | S k' =>
+        match retries s with
+        | [] => Go s
+        | _ :: _ =>
+            match idle_list c s with
+            | [] => Go s
+            | cands =>
+                match te c fuel' s (choose c s cands) with
+                | (Go s', _) => redispatch k' s'
+                | (Stop o, _) => Stop o
+                end
+            end
+        end
+    end.
+
+Lemma hd_S c fuel s i :
+  hd_ c (S fuel) s i =
+  redispatch c fuel fuel (bury c (drain c (S (length (q (w s i)))) s i) i).
+Proof. reflexivity. Qed.
+
+Lemma te_S c fuel s i :
+  te c (S fuel) s i =
+  match next_inputs s with
+  | (None, s1) => (Go s1, false)
+  | (Some (x, fr), s1) =>
+      if closed (w s1 i) then (Go (handle_unused c s1 x fr), true)
+      else if refuse c i x then (Go (handle_unused c (bump s1) x fr), true)
+      else if alive (w s1 i) then (Go (handle_enqueue s1 i x), true)
+      else
+        match hd_ c fuel (bump s1) i with
+        | Go s2 => (Go (handle_unused c s2 x fr), true)
+        | Stop o => (Stop o, true)
+        end
+  end.
+Proof. reflexivity. Qed.
+
+Lemma redispatch_S c fuel k s :
+  redispatch c fuel (S k) s =
+  match retries s with
+  | [] => Go s
+  | _ :: _ =>
+      match idle_list c s with
+      | [] => Go s
+      | cands =>
+          match te c fuel s (choose c s cands) with
+          | (Go s', _) => redispatch c fuel k s'
+          | (Stop o, _) => Stop o
+          end
+      end
+  end.
+Proof. reflexivity. Qed.
+
+Lemma bump_w s : w (bump s) = w s.
+Proof. reflexivity. Qed.
+
+Lemma te_hd_inv c inputs fuel :
+  (forall s i h, (i < n c)%nat -> Inv c inputs h s -> okR c inputs h (fst (te c fuel s i)))
+  /\ (forall s i h, (i < n c)%nat -> Inv c inputs h s -> closed (w s i) = false ->
+        (alive (w s i) = false \/ ended (w s i) = true) -> okR c inputs h (hd_ c fuel s i)).
+Proof.
+  induction fuel as [|fuel [IHte IHhd]]; [split; intros; exact eq_refl|].
+  split.
+  - intros s i h Hi I. rewrite te_S.
+    destruct (next_inputs s) as [[[x fr]|] s1] eqn:En.
+    2:{ cbn [fst okR]. eapply next_inputs_none; eauto. }
+    destruct (next_inputs_some c inputs h s s1 x fr I En) as [I1 Hw].
+    destruct (closed (w s1 i)) eqn:Hc.
+    { cbn [fst okR]. now apply handle_unused_inv. }
+    destruct (refuse c i x).
+    { cbn [fst okR]. apply handle_unused_inv. now apply bump_inv. }
+    destruct (alive (w s1 i)) eqn:Ha.
+    { cbn [fst okR]. now apply handle_enqueue_inv. }
+    pose proof (IHhd (bump s1) i (x :: h) Hi (bump_inv _ _ _ _ I1) Hc (or_introl Ha)) as H2.
+    destruct (hd_ c fuel (bump s1) i) as [s2|o]; cbn [fst okR] in *.
+    + now apply handle_unused_inv.
+    + exact H2.
+  - intros s i h Hi I Hc Hd. rewrite hd_S.
+    destruct (drain_inv c inputs h (S (length (q (w s i)))) s i Hi I Hc (Nat.lt_succ_diag_r _))
+      as [I1 [Ho1 [Hc1 [Ha1 [He1 [Hq1 _]]]]]].
+    set (s1 := drain c (S (length (q (w s i)))) s i) in *.
+    assert (Hd1 : alive (w s1 i) = false \/ ended (w s1 i) = true) by (rewrite Ha1, He1; exact Hd).
+    destruct (bury_inv c inputs h s1 i Hi I1 Hc1 Hq1 Hd1) as [I2 _].
+    set (s2 := bury c s1 i) in *. clearbody s2. clear - IHte I2.
+    revert s2 I2. generalize fuel at 2 as k.
+    induction k as [|k IHk]; intros s2 I2; [exact eq_refl|].
+    rewrite redispatch_S.
+    destruct (retries s2) as [|y r] eqn:Er; [exact I2|].
+    destruct (idle_list c s2) as [|j0 cands] eqn:El; [exact I2|].
+    assert (Hin : In (choose c s2 (j0 :: cands)) (idle_list c s2)).
+    { rewrite El. apply choose_in. discriminate. }
+    destruct (idle_list_spec c s2 _ Hin) as [Hj _].
+    pose proof (IHte s2 (choose c s2 (j0 :: cands)) h Hj I2) as H3.
+    destruct (te c fuel s2 (choose c s2 (j0 :: cands))) as [[s3|o] b]; cbn [fst okR] in H3.
+    + apply IHk. exact H3.
+    + exact H3.
+Qed.
+
+Lemma te_inv c inputs fuel s i h :
+  (i < n c)%nat -> Inv c inputs h s -> okR c inputs h (fst (te c fuel s i)).
+Proof. intros. now apply (proj1 (te_hd_inv c inputs fuel)). Qed.
+
+Lemma hd_inv c inputs fuel s i h :
+  (i < n c)%nat -> Inv c inputs h s -> closed (w s i) = false ->
+  (alive (w s i) = false \/ ended (w s i) = true) -> okR c inputs h (hd_ c fuel s i).
+Proof. intros. now apply (proj2 (te_hd_inv c inputs fuel)). Qed.
+
+(* ---------- handle_new_result / recv_one / poll ---------- *)
+Definition okR' (c : cfg) (inputs : list inp) (r : R) : Prop := okR c inputs [] r.
+
+Lemma setw_inv_flags c inputs h s i v :
+  Inv c inputs h s -> ppw v = ppw (w s i) -> WInv c v -> Inv c inputs h (setw s i v).
+Proof.
+  intros I Hp Wv. destruct I.
+  assert (Hs : forall j, ppw (w (setw s i v) j) = ppw (w s j)).
+  { intros j. unfold setw. cbn [w]. destruct (Nat.eq_dec j i) as [->|Hne]; now upd_simpl. }
+  constructor; auto.
+  - intros j. unfold setw. cbn [w]. destruct (Nat.eq_dec j i) as [->|Hne]; upd_simpl; auto.
+  - change (pending (setw s i v)) with (pending s). rewrite inv_pending0. f_equal.
+    apply sumf_ext. intros. unfold plen. now rewrite Hs.
+  - intros z. change (consumed (setw s i v)) with (consumed s).
+    change (ret_in (setw s i v)) with (ret_in s). change (retries (setw s i v)) with (retries s).
+    change (lost (setw s i v)) with (lost s). rewrite (inv_cons0 z).
+    assert (sumf (pcnt z (setw s i v)) (n c) = sumf (pcnt z s) (n c)) as ->; [|reflexivity].
+    apply sumf_ext. intros. unfold pcnt. now rewrite Hs.
+Qed.
+
+Lemma recv_one_inv c inputs fuel s i :
+  Inv c inputs [] s -> recv_one c fuel s i <> Stop (Internal EIndex) /\ okR' c inputs (recv_one c fuel s i).
+Proof.
+  intros I. unfold recv_one, okR'.
+  destruct (Nat.leb_spec (n c) i) as [Hge|Hi]; [split; [discriminate|exact I]|].
+  pose proof (inv_w _ _ _ _ I i) as Wi.
+  destruct (qpres (w s i)) eqn:Hqp; cbn [negb]; [|split; [discriminate|exact I]].
+  destruct (q (w s i)) as [|[x r|] q'] eqn:Hq.
+  - (* nothing queued: EOF if the process is gone *)
+    destruct (alive (w s i)) eqn:Ha; [split; [discriminate|exact I]|].
+    destruct (closed (w s i)) eqn:Hc.
+    + match goal with |- context [setw s i ?V] => set (v := V) end.
+      assert (Wv : WInv c v).
+      { destruct Wi as [Wc Wo Wk Ww Wn We Wp]. rewrite ?Hq, ?Ha, ?Hc in *.
+        unfold v. constructor; cbn [ppw closed qpres inbox q alive ended failed]; auto. }
+      split; [discriminate|]. apply setw_inv_flags; auto.
+    + match goal with |- context [setw s i ?V] => set (v := V) end.
+      assert (Wv : WInv c v).
+      { destruct Wi as [Wc Wo Wk Ww Wn We Wp]. rewrite ?Hq, ?Ha, ?Hc in *.
+        unfold v. constructor; cbn [ppw closed qpres inbox q alive ended failed]; auto. }
+      assert (I1 : Inv c inputs [] (setw s i v)) by (apply setw_inv_flags; auto).
+      assert (Hc1 : closed (w (setw s i v) i) = false) by (unfold setw; cbn [w]; upd_simpl; reflexivity).
+      assert (Hd1 : alive (w (setw s i v) i) = false \/ ended (w (setw s i v) i) = true).
+      { left. unfold setw; cbn [w]; upd_simpl. reflexivity. }
+      pose proof (hd_inv c inputs fuel _ i [] Hi I1 Hc1 Hd1) as H.
+      destruct (hd_ c fuel (setw s i v) i); cbn [okR] in *; split; auto; try discriminate.
+      intros E. inversion E. subst. discriminate.
+  - (* a result *)
+    unfold handle_new_result.
+    destruct (closed (w s i)) eqn:Hc.
+    { destruct (wi_closed _ _ Wi Hc) as [_ [Hqi _]]. rewrite Hq in Hqi. discriminate. }
+    destruct (take_result_inv c inputs [] s i x r q' Hi I Hq Hc) as [s1 [E [I1 [_ [Hc1 _]]]]].
+    rewrite E, Hc1.
+    pose proof (te_inv c inputs fuel s1 i [] Hi I1) as H.
+    destruct (te c fuel s1 i) as [[s2|o] b]; cbn [fst okR] in *; split; auto; try discriminate.
+    intros E'. inversion E'. subst. discriminate.
+  - (* the end marker *)
+    destruct (drop_end_inv c inputs [] s i q' I Hq) as [I1 ->].
+    rewrite set_q_w_same. cbn [closed].
+    destruct (closed (w s i)) eqn:Hc; [split; [discriminate|exact I1]|].
+    assert (Hc1 : closed (w (set_q s i []) i) = false) by (rewrite set_q_w_same; exact Hc).
+    assert (Hd1 : alive (w (set_q s i []) i) = false \/ ended (w (set_q s i []) i) = true).
+    { right. rewrite set_q_w_same. cbn [ended]. apply (wi_end _ _ Wi). rewrite Hq. now left. }
+    pose proof (hd_inv c inputs fuel _ i [] Hi I1 Hc1 Hd1) as H.
+    destruct (hd_ c fuel (set_q s i []) i); cbn [okR] in *; split; auto; try discriminate.
+    intros E. inversion E. subst. discriminate.
+Qed.
+
+Lemma poll_inv c inputs fuel order : forall s,
+  Inv c inputs [] s -> poll c fuel s order <> Stop (Internal EIndex) /\ okR' c inputs (poll c fuel s order).
+Proof.
+  induction order as [|i r IH]; intros s I; [split; [discriminate|exact I]|].
+  simpl poll. destruct (recv_one_inv c inputs fuel s i I) as [N H].
+  destruct (recv_one c fuel s i) as [s'|o]; [apply IH; exact H|].
+  split; [exact N|exact H].
+Qed.
+
+(* ---------- environment steps ---------- *)
+Lemma env_step_inv c inputs h s o : Inv c inputs h s -> Inv c inputs h (env_step c s o).
+Proof.
+  intros I. unfold env_step.
+  destruct (Nat.leb_spec (n c) (op_wid o)) as [_|Hi]; [exact I|].
+  destruct o as [i|i|i|ord]; cbn [op_wid] in Hi; [| | |exact I];
+    pose proof (inv_w _ _ _ _ I i) as Wi; destruct Wi as [Wc Wo Wk Ww Wn We Wp].
+  - (* Ans *)
+    destruct (alive (w s i) && negb (ended (w s i))) eqn:Hg; [|exact I].
+    apply andb_prop in Hg. destruct Hg as [Ha He]. apply negb_true_iff in He.
+    destruct (inbox (w s i)) as [|x ib] eqn:Hib; [exact I|].
+    destruct (Wn He) as [Wr Wf].
+    apply setw_inv_flags; auto.
+    constructor; cbn [ppw closed qpres inbox q alive ended failed].
+    + intros Hc. destruct (Wc Hc) as [_ [_ [A|[A|A]]]]; congruence.
+    + intros Hc. rewrite (Wo Hc), Wf, qinputs_app. simpl. now rewrite <- app_assoc.
+    + apply Forall_app. split; [exact Wk|]. constructor; [reflexivity|constructor].
+    + now apply wf_q_app_res.
+    + intros _. split; [|exact Wf]. apply Forall_app. split; [exact Wr|]. constructor; [exact Logic.I|constructor].
+    + intros Hin. apply in_app_or in Hin. destruct Hin as [Hin|[Hin|[]]]; [|discriminate].
+      rewrite Forall_forall in Wr. elim (Wr _ Hin).
+    + intros Hqp. destruct (Wp Hqp). congruence.
+  - (* Fail *)
+    destruct (alive (w s i) && negb (ended (w s i))) eqn:Hg; [|exact I].
+    apply andb_prop in Hg. destruct Hg as [Ha He]. apply negb_true_iff in He.
+    destruct (inbox (w s i)) as [|x ib] eqn:Hib; [exact I|].
+    destruct (Wn He) as [Wr Wf].
+    apply setw_inv_flags; auto.
+    constructor; cbn [ppw closed qpres inbox q alive ended failed].
+    + intros Hc. destruct (Wc Hc) as [_ [_ [A|[A|A]]]]; congruence.
+    + intros Hc. rewrite (Wo Hc), Wf, qinputs_app. simpl. now rewrite app_nil_r.
+    + apply Forall_app. split; [exact Wk|]. constructor; [exact Logic.I|constructor].
+    + now apply wf_q_app_end.
+    + discriminate.
+    + reflexivity.
+    + intros Hqp. destruct (Wp Hqp). congruence.
+  - (* Exit *)
+    apply setw_inv_flags; auto.
+    constructor; cbn [ppw closed qpres inbox q alive ended failed]; auto.
+    + intros Hc. destruct (Wc Hc) as [A [B _]]. auto.
+    + intros Hqp. destruct (Wp Hqp). auto.
+Qed.
+
+(* ---------- the event loop ---------- *)
+Definition good_end (c : cfg) (s : St) (o : outcome) : Prop :=
+  o = Blocked \/ o = Livelock \/ o = Internal EOracle \/ o = finish c s.
+
+Lemma main_loop_inv c inputs fuel script : forall s,
+  Inv c inputs [] s ->
+  let '(o, s') := main_loop c fuel s script in Inv c inputs [] s' /\ good_end c s' o.
+Proof.
+  induction script as [|o script IH]; intros s I; simpl main_loop.
+  - destruct (negb (pending s =? 0) && any_open c s); (split; [exact I|]); unfold good_end; auto.
+  - destruct (negb (pending s =? 0) && any_open c s); [|split; [exact I|unfold good_end; auto]].
+    destruct o as [i|i|i|order]; try (apply IH; now apply env_step_inv).
+    destruct (strict c && negb (exact_ready c s order)); [split; [exact I|unfold good_end; auto]|].
+    destruct (existsb (ready s) order); [|split; [exact I|unfold good_end; auto]].
+    destruct (poll_inv c inputs fuel order s I) as [N H].
+    destruct (poll c fuel s order) as [s'|o']; [apply IH; exact H|].
+    split; [exact I|]. cbn [okR' okR] in H. unfold good_end. auto.
+Qed.
+
+(* ---------- first_enqueue ---------- *)
+Lemma fe_row_inv c inputs fuel ids : forall s,
+  (forall i, In i ids -> (i < n c)%nat) -> Inv c inputs [] s ->
+  okR' c inputs (fst (fe_row c fuel s ids)).
+Proof.
+  induction ids as [|i r IH]; intros s Hids I; [exact I|].
+  simpl fe_row. destruct (closed (w s i)); [apply IH; auto; intros; apply Hids; now right|].
+  pose proof (te_inv c inputs fuel s i [] (Hids i (or_introl eq_refl)) I) as H.
+  destruct (te c fuel s i) as [[s'|o] b]; cbn [fst okR] in H.
+  - destruct b; [apply IH; auto; intros; apply Hids; now right|exact H].
+  - exact H.
+Qed.
+
+Lemma first_enqueue_inv c inputs fuel rounds : forall s,
+  Inv c inputs [] s -> okR' c inputs (first_enqueue c fuel s rounds).
+Proof.
+  induction rounds as [|k IH]; intros s I; [exact I|].
+  simpl first_enqueue.
+  pose proof (fe_row_inv c inputs fuel (seq 0 (n c)) s) as H.
+  assert (Hids : forall i, In i (seq 0 (n c)) -> (i < n c)%nat) by (intros i Hi; apply in_seq in Hi; lia).
+  specialize (H Hids I).
+  destruct (fe_row c fuel s (seq 0 (n c))) as [[s'|o] b]; cbn [fst okR' okR] in H.
+  - destruct b; [apply IH; exact H|exact H].
+  - exact H.
+Qed.
+
+(* ---------- initial states ---------- *)
+Definition Clean (v : W) : Prop :=
+  ppw v = [] /\ q v = [] /\ inbox v = [] /\ failed v = [] /\ ended v = false /\ (qpres v = false -> alive v = false).
+
+Lemma clean_winv c v : Clean v -> WInv c v.
+Proof.
+  intros [A [B [C [D [E F]]]]]. constructor; rewrite ?A, ?B, ?C, ?D; simpl; auto;
+    try constructor; try (intros []); auto.
+Qed.
+
+Lemma env_step_clean c s o : (forall i, Clean (w s i)) -> forall i, Clean (w (env_step c s o) i).
+Proof.
+  intros H. unfold env_step. destruct (n c <=? op_wid o)%nat; [exact H|].
+  destruct o as [j|j|j|ord]; try exact H; intros i.
+  - destruct (H j) as [_ [_ [C _]]]. rewrite C. destruct (alive (w s j) && negb (ended (w s j))); apply H.
+  - destruct (H j) as [_ [_ [C _]]]. rewrite C. destruct (alive (w s j) && negb (ended (w s j))); apply H.
+  - unfold setw. cbn [w]. destruct (Nat.eq_dec i j) as [->|Hne]; upd_simpl; [|apply H].
+    destruct (H j) as [A [B [C [D [E F]]]]]. unfold Clean. cbn. repeat split; auto.
+Qed.
+
+Lemma pre_clean c pre : forall s, (forall i, Clean (w s i)) -> forall i, Clean (w (fold_left (env_step c) pre s) i).
+Proof. induction pre as [|o pre IH]; intros s H; simpl; [exact H|]. apply IH. now apply env_step_clean. Qed.
+
+Lemma reset_inv c s inputs : (forall i, Clean (w s i)) -> Inv c inputs [] (reset c s inputs).
+Proof.
+  intros H. unfold reset. constructor; cbn [w src depleted pending retries ret nenq ret_in consumed lost].
+  - intros i. apply clean_winv. destruct (H i) as [A [B [C [D [E F]]]]]. unfold Clean. cbn. repeat split; auto.
+  - rewrite sumf_zero; [reflexivity|]. intros. reflexivity.
+  - intros z. rewrite sumf_zero; [reflexivity|]. intros. reflexivity.
+  - reflexivity.
+  - reflexivity.
+  - reflexivity.
+  - reflexivity.
+  - discriminate.
+Qed.
+
+(* ---------- what a run can end with ---------- *)
+Lemma run_from_inv c s0 inputs script :
+  (forall i, Clean (w s0 i)) ->
+  let '(o, s') := run_from c s0 inputs script in
+  o = ReturnNone \/ (Inv c inputs [] s' /\ good_end c s' o).
+Proof.
+  intros Hc. unfold run_from. destruct (negb (any_open c s0)); [now left|].
+  pose proof (first_enqueue_inv c inputs (fuel_of c) (S (extra c)) _ (reset_inv c s0 inputs Hc)) as H.
+  destruct (first_enqueue c (fuel_of c) (reset c s0 inputs) (S (extra c))) as [s1|o]; cbn [okR' okR] in H.
+  - pose proof (main_loop_inv c inputs (fuel_of c) script s1 H) as M.
+    destruct (main_loop c (fuel_of c) s1 script) as [o s']. now right.
+  - right. split; [now apply reset_inv|]. unfold good_end. auto.
+Qed.
+
+Lemma fresh_clean pc i : Clean (w (fresh pc) i).
+Proof. unfold fresh, Clean. cbn. repeat split; auto; discriminate. Qed.
+
+(* all pending lists empty when the counter is zero *)
+Lemma pending_zero c inputs h s :
+  Inv c inputs h s -> pending s = 0 -> forall x, sumf (pcnt x s) (n c) = O.
+Proof.
+  intros I Hp x. rewrite (inv_pending _ _ _ _ I) in Hp.
+  assert (Hz : sumf (plen s) (n c) = O) by lia.
+  apply sumf_zero. intros i Hi. pose proof (sumf_zero_inv _ _ Hz i Hi) as Hl.
+  unfold plen in Hl. unfold pcnt. destruct (ppw (w s i)); [reflexivity|discriminate].
+Qed.
+
+Lemma finish_return c inputs s r :
+  Inv c inputs [] s -> finish c s = Return r ->
+  return_results c = true /\ r = map (f c) (ret_in s) /\
+  forall x, cnt inputs x = (cnt (ret_in s) x + cnt (lost s) x)%nat.
+Proof.
+  intros I. unfold finish.
+  destruct (depleted s) eqn:Hd; [|discriminate].
+  destruct (pending s =? 0) eqn:Hp; [|discriminate].
+  destruct (retries s) eqn:Hr; [|discriminate]. cbn [andb].
+  destruct (return_results c) eqn:Hrr; [|discriminate].
+  intros E. inversion E. subst. split; [reflexivity|]. split; [apply (inv_ret _ _ _ _ I Hrr)|].
+  intros x. pose proof (inv_cons _ _ _ _ I x) as C. rewrite Hr in C.
+  rewrite (pending_zero c inputs [] s I) in C by lia.
+  rewrite <- (inv_src _ _ _ _ I), (inv_dep _ _ _ _ I Hd), app_nil_r. simpl in C. lia.
+Qed.
+
+(* ---------- the theorems about [run] ---------- *)
+Lemma run_cases c pc pre inputs script :
+  let o := run c pc pre inputs script in
+  o = ReturnNone \/ exists s', Inv c inputs [] s' /\ good_end c s' o.
+Proof.
+  cbn zeta. unfold run.
+  pose proof (run_from_inv c (fold_left (env_step c) pre (fresh pc)) inputs script
+                (pre_clean c pre _ (fresh_clean pc))) as H.
+  destruct (run_from c (fold_left (env_step c) pre (fresh pc)) inputs script) as [o s'].
+  cbn [fst]. destruct H as [H|H]; [now left|right; eauto].
+Qed.
+
+Lemma finish_cases c s :
+  (exists r, finish c s = Return r) \/ finish c s = ReturnUnit \/ (exists p, finish c s = PoolErr p).
+Proof. unfold finish. destruct (_ && _ && _); [destruct (return_results c)|]; eauto. Qed.
+
+Theorem run_no_internal_error c pc pre inputs script :
+  run c pc pre inputs script <> Internal EIndex.
+Proof.
+  destruct (run_cases c pc pre inputs script) as [E|[s' [I [E|[E|[E|E]]]]]]; rewrite E; try discriminate.
+  destruct (finish_cases c s') as [[r ->]|[->|[p ->]]]; discriminate.
+Qed.
+
+(* the oracle-mismatch outcome exists only in the strict (correspondence) mode *)
+Lemma te_hd_no_oracle c fuel : forall s i,
+  fst (te c fuel s i) <> Stop (Internal EOracle) /\ hd_ c fuel s i <> Stop (Internal EOracle).
+Proof.
+  induction fuel as [|fuel IHf]; intros s i; [split; discriminate|]. split.
+  - rewrite te_S. destruct (next_inputs s) as [[[x fr]|] sx]; [|discriminate].
+    destruct (closed (w sx i)); [discriminate|]. destruct (refuse c i x); [discriminate|].
+    destruct (alive (w sx i)); [discriminate|].
+    destruct (IHf (bump sx) i) as [_ H]. destruct (hd_ c fuel (bump sx) i); [discriminate|].
+    cbn [fst]. congruence.
+  - rewrite hd_S. generalize (bury c (drain c (S (length (q (w s i)))) s i) i) as sb.
+    generalize fuel at 2 as k. induction k as [|k IHk]; intros sb; [discriminate|].
+    rewrite redispatch_S. destruct (retries sb); [discriminate|].
+    destruct (idle_list c sb) as [|j0 cs]; [discriminate|].
+    destruct (IHf sb (choose c sb (j0 :: cs))) as [H _].
+    destruct (te c fuel sb (choose c sb (j0 :: cs))) as [[sg|og] b]; [apply IHk|].
+    cbn [fst] in H. congruence.
+Qed.
+
+Lemma recv_one_no_oracle c fuel s i : recv_one c fuel s i <> Stop (Internal EOracle).
+Proof.
+  unfold recv_one.
+  destruct (n c <=? i)%nat; [discriminate|]. destruct (negb (qpres (w s i))); [discriminate|].
+  destruct (q (w s i)) as [|[x r0|] q'].
+  - destruct (alive (w s i)); [discriminate|]. destruct (closed (w s i)); [discriminate|].
+    apply (proj2 (te_hd_no_oracle c fuel _ _)).
+  - unfold handle_new_result. destruct (take_result c (set_q s i q') i r0) as [sr|]; [|discriminate].
+    destruct (closed (w sr i)); [discriminate|]. apply (proj1 (te_hd_no_oracle c fuel _ _)).
+  - destruct (closed (w (set_q s i q') i)); [discriminate|]. apply (proj2 (te_hd_no_oracle c fuel _ _)).
+Qed.
+
+Lemma poll_no_oracle c fuel order : forall s, poll c fuel s order <> Stop (Internal EOracle).
+Proof.
+  induction order as [|i r IH]; intros s; [discriminate|]. simpl.
+  pose proof (recv_one_no_oracle c fuel s i) as H.
+  destruct (recv_one c fuel s i); [apply IH|exact H].
+Qed.
+
+Lemma finish_no_internal c s e : finish c s <> Internal e.
+Proof. destruct (finish_cases c s) as [[r ->]|[->|[p ->]]]; discriminate. Qed.
+
+Lemma main_loop_no_oracle c fuel script : forall s,
+  strict c = false -> fst (main_loop c fuel s script) <> Internal EOracle.
+Proof.
+  induction script as [|o script IH]; intros s Hs; simpl main_loop.
+  - destruct (_ && _); cbn [fst]; [discriminate|apply finish_no_internal].
+  - destruct (negb (pending s =? 0) && any_open c s); [|cbn [fst]; apply finish_no_internal].
+    destruct o as [i|i|i|order]; try (apply IH; exact Hs).
+    rewrite Hs. cbn [andb].
+    destruct (existsb (ready s) order); [|discriminate].
+    pose proof (poll_no_oracle c fuel order s) as H.
+    destruct (poll c fuel s order) as [s'|o']; [apply IH; exact Hs|].
+    cbn [fst]. congruence.
+Qed.
+
+Theorem run_oracle_only_when_strict c pc pre inputs script :
+  strict c = false -> run c pc pre inputs script <> Internal EOracle.
+Proof.
+  intros Hs. unfold run, run_from.
+  destruct (negb (any_open c _)); [discriminate|].
+  destruct (first_enqueue c (fuel_of c) _ (S (extra c))) as [s1|o] eqn:E.
+  - now apply main_loop_no_oracle.
+  - cbn [fst]. intros ->.
+    pose proof (first_enqueue_inv c inputs (fuel_of c) (S (extra c)) _
+                  (reset_inv c _ inputs (pre_clean c pre _ (fresh_clean pc)))) as H.
+    rewrite E in H. cbn [okR' okR] in H. discriminate.
+Qed.
+
+Theorem run_return_exactly_once c pc pre inputs script r :
+  retry c = true -> run c pc pre inputs script = Return r -> Permutation r (map (f c) inputs).
+Proof.
+  intros Hr E.
+  destruct (run_cases c pc pre inputs script) as [E'|[s' [I [E'|[E'|[E'|E']]]]]]; rewrite E in E'; try discriminate.
+  symmetry in E'. destruct (finish_return c inputs s' r I E') as [_ [-> C]].
+  apply Permutation_map. apply Permutation_sym. rewrite (Permutation_count_occ Z.eq_dec).
+  intros x. rewrite (C x), (inv_lost _ _ _ _ I Hr). simpl. lia.
+Qed.
+
+(* C08: whatever is reported is genuine *)
+Theorem run_partial_genuine c pc pre inputs script p :
+  run c pc pre inputs script = PoolErr p ->
+  exists l, p = (if return_results c then map (f c) l else []) /\ forall x, (cnt l x <= cnt inputs x)%nat.
+Proof.
+  intros E.
+  destruct (run_cases c pc pre inputs script) as [E'|[s' [I [E'|[E'|[E'|E']]]]]]; rewrite E in E'; try discriminate.
+  unfold finish in E'. destruct (_ && _ && _); [destruct (return_results c); discriminate|].
+  inversion E'. subst. exists (ret_in s'). split.
+  - destruct (return_results c) eqn:Hr; [apply (inv_ret _ _ _ _ I Hr)|apply (inv_ret_off _ _ _ _ I Hr)].
+  - intros x. pose proof (inv_cons _ _ _ _ I x) as C. rewrite <- (inv_src _ _ _ _ I), cnt_app. lia.
+Qed.
+
+Theorem run_return_no_retry c pc pre inputs script r :
+  run c pc pre inputs script = Return r ->
+  exists l lost_, r = map (f c) l /\ forall x, cnt inputs x = (cnt l x + cnt lost_ x)%nat.
+Proof.
+  intros E.
+  destruct (run_cases c pc pre inputs script) as [E'|[s' [I [E'|[E'|[E'|E']]]]]]; rewrite E in E'; try discriminate.
+  symmetry in E'. destruct (finish_return c inputs s' r I E') as [_ [-> C]]. eauto.
+Qed.
